@@ -78,10 +78,67 @@ def sexpr(n):
     return "(" + " ".join(parts) + ")"
 
 
+# Concrete guises of the abstract failing element / failing condition, per datamodel. Every form
+# was observed (check C07 re-validates them each run, suite "forms") to raise exactly the one
+# event and to abort the enclosing block. {uv} is the uvid attribute.
+FAIL_FORMS = {
+    "null": {
+        "exec": ['<send event="x" type="http://example.invalid/nosuchtype" uvid="{uv}"/>',
+                 '<send event="x" targetexpr="nosuchfunction()" uvid="{uv}"/>',
+                 '<send event="x" target="!invalid" uvid="{uv}"/>',
+                 '<send event="x" target="#_internal" type="nosuch" uvid="{uv}"/>',
+                 '<cancel uvid="{uv}"/>'],
+        "comm": ['<send event="x" target="#_nosuchinvoker" uvid="{uv}"/>',
+                 '<send event="x" target="#_scxml_nosuchsession" uvid="{uv}"/>'],
+    },
+}
+_COMMON_DM = [
+    '<send event="x" type="http://example.invalid/nosuchtype" uvid="{uv}"/>',
+    '<assign location="" expr="1" uvid="{uv}"/>',
+    '<assign expr="1" uvid="{uv}"/>',
+    '<assign location="nosuch.foo.bar" expr="1" uvid="{uv}"/>',
+    '<assign location="Var0" expr="nosuchfunction()" uvid="{uv}"/>',
+    '<assign location="Var0" expr="1 +* (" uvid="{uv}"/>',
+    '<assign location="Var0" expr="7 % 0" uvid="{uv}"/>',
+    '<assign location="Var0" expr="nil + 1" uvid="{uv}"/>',
+    '<assign location="_event" expr="1" uvid="{uv}"/>',
+    '<assign location="_sessionid" expr="1" uvid="{uv}"/>',
+    '<foreach array="nosuch" item="x" uvid="{uv}"/>',
+    '<foreach item="x" uvid="{uv}"/>',
+    '<foreach array="Var0" item="x" uvid="{uv}"/>',
+    '<foreach array="Var0" item="1bad" uvid="{uv}"/>',
+    '<script uvid="{uv}">this is (( not code</script>',
+    '<script uvid="{uv}">nosuchfunction()</script>',
+    '<log expr="nosuchfunction()" uvid="{uv}"/>',
+    '<send eventexpr="nosuchfunction()" uvid="{uv}"/>',
+    '<send event="x" targetexpr="nosuchfunction()" uvid="{uv}"/>',
+    '<send event="x" delayexpr="nosuchfunction()" uvid="{uv}"/>',
+    '<send event="x" uvid="{uv}"><param name="p" expr="nosuchfunction()"/></send>',
+    '<send event="x" uvid="{uv}"><content expr="nosuchfunction()"/></send>',
+    '<send event="x" target="!invalid" uvid="{uv}"/>',
+    '<send event="x" target="#_internal" type="nosuch" uvid="{uv}"/>',
+    '<cancel uvid="{uv}"/>',
+    '<cancel sendidexpr="nosuchfunction()" uvid="{uv}"/>',
+]
+FAIL_FORMS["lua"] = {"exec": _COMMON_DM + ['<assign location="Var0" expr="7 // 0" uvid="{uv}"/>'], "comm": FAIL_FORMS["null"]["comm"]}
+FAIL_FORMS["promela"] = {"exec": _COMMON_DM + ['<assign location="Var0" expr="7 / 0" uvid="{uv}"/>',
+                                               '<assign location="nosuch" expr="1" uvid="{uv}"/>'], "comm": FAIL_FORMS["null"]["comm"]}
+COND_ERR = {
+    "lua": ["nosuchfunction()", "1 +* (", "nil + 1 > 0", "Var0.x.y", "7 % 0", "x x", "_event.data.foo.bar", "In(", '"abc', "1 == "],
+    "promela": ["nosuchfunction()", "1 +* (", "7 / 0", "7 % 0", "x x", "Var0.x.y", "In(", '"abc', "1 == "],
+}
+_FLAVOR = None      # None: the one canonical form; an int: pick a guise per element
+_CONDNO = [0]
+
+
 def xml_cond(cond, dm):
     if cond == "-": return None
     if cond == "never": return "false" if dm != "promela" else "0"
-    if cond == "err": return {"lua": "nosuchfunction()", "promela": "nosuchvar"}.get(dm, "false")
+    if cond == "err":
+        if dm not in COND_ERR: return "false"
+        if _FLAVOR is None: return "nosuchfunction()"
+        _CONDNO[0] += 1
+        return COND_ERR[dm][(_FLAVOR + 7 * _CONDNO[0]) % len(COND_ERR[dm])]
     p = cond.split(":")
     if p[0] == "in": return "In('%s')" % p[1] if dm != "promela" else "_x.states[%s]" % p[1]
     if p[0] == "notin": return "not In('%s')" % p[1]
@@ -100,8 +157,9 @@ def xml_exec(e, dm):
     if k == "send":
         return '<send event="%s"%s uvid="%d"/>' % (e[2], ' target="%s"' % e[3] if e[3] else "", e[1])
     if k == "fail":
-        if e[2] == "comm": return '<send event="x" target="#_nosuchinvoker" uvid="%d"/>' % e[1]
-        return '<send event="x" type="http://example.invalid/nosuchtype" uvid="%d"/>' % e[1]
+        forms = FAIL_FORMS[dm if dm in FAIL_FORMS else "null"]["comm" if e[2] == "comm" else "exec"]
+        f = forms[0] if _FLAVOR is None else forms[(_FLAVOR + 31 * e[1]) % len(forms)]
+        return f.replace("{uv}", str(e[1]))
     if k == "assign": return '<assign location="Var%d" expr="%d" uvid="%d"/>' % (e[2], e[3], e[1])
     if k == "incr": return '<assign location="Var%d" expr="Var%d + 1" uvid="%d"/>' % (e[2], e[2], e[1])
     if k == "if":
@@ -139,15 +197,20 @@ def xml_node(n, dm, nvars=0):
     return s + "</%s>" % tag
 
 
-def xml(n, dm="null", nvars=0):
-    return xml_node(n, dm, nvars)
+def xml(n, dm="null", nvars=0, flavor=None):
+    global _FLAVOR
+    _FLAVOR = flavor; _CONDNO[0] = 0
+    try:
+        return xml_node(n, dm, nvars)
+    finally:
+        _FLAVOR = None
 
 
 # ------------------------------------------------------------------------------- random charts
 class Gen:
     def __init__(self, rng, max_states=10, events=("e", "f", "g"), p_history=0.3, p_parallel=0.35,
                  p_exec=0.5, p_fail=0.08, p_targetless=0.15, p_internal=0.15, p_multi=0.25, p_eventless=0.15,
-                 p_cond=0.25, p_initial_elem=0.3, p_final=0.3, p_loop=0.25, dm="null", nvars=0):
+                 p_cond=0.25, p_initial_elem=0.3, p_final=0.3, p_loop=0.25, dm="null", nvars=0, p_conderr=0.0):
         self.__dict__.update(locals())
         self.n = 0
         self.uv = 0
@@ -238,6 +301,7 @@ class Gen:
     def cond(self):
         r = self.rng
         x = r.random()
+        if self.p_conderr and self.dm in COND_ERR and r.random() < self.p_conderr: return "err"
         if x < 0.15: return "never"
         if self.nvars and x < 0.5: return "var:%d:%d" % (r.randrange(self.nvars), r.choice([0, 1, 2, 3]))
         ids = getattr(self, "ids", ["s1"])
